@@ -25,7 +25,7 @@ def kwargs_for(h):
 
 
 def main(tier, seed):
-    return dbtie.db_check("C04", tier, seed, PROFILE, 240, 5000, "Prop_C04",
+    return dbtie.db_check("C04", tier, seed, PROFILE, 400, 5000, "Prop_C04",
                           "text of time / number cells and the csv module are standard-library behaviour (oracle pairs with round-trip hypotheses); "
                           "encodings are the text layer's (the file is decoded with the configured encoding by an independent reader)",
                           configs=[(True, True), (True, False)], kwargs_for=kwargs_for)
